@@ -11,7 +11,7 @@ import random
 
 NAMES = ['a', 'b', 'c', 'x', 'y', 'value', 'items', 'self', 'n', 'data_1', 'Ab', 'T', 'k', 'v', 'fn', 'Base', 'Sub', 'e']
 TYPES = ['int', 'str', 'float', 'bool', 'None', 'A', 'list[int]', 'dict[str, int]', 'tuple[int, str]', 'int | None', "'A'", "list['A']", 'Callable[[int], str]', 'a.B']
-STRINGS = ["'s'", '"d"', "''", "'a b'", "'あい'", "f'{a}x'", "r'\\d+'", '"""doc"""', "'it\\'s'"]
+STRINGS = ["'s'", '"d"', "''", "'a b'", "'あい'", "'v\x0bt'", "'u\u2028s'", "'\x1c\x85'", "f'{a}x'", "r'\\d+'", '"""doc"""', "'it\\'s'"]
 NUMBERS = ['0', '1', '42', '1.5', '0x1F', '10', '3.0']
 
 
@@ -182,7 +182,7 @@ class Gen:
 		if r < 0.88:
 			return f'yield {e()}'
 		if r < 0.93:
-			return self.rng.choice(['# comment', '# コメント あ', '#', '# a\tb', '# trailing blanks  ', '#\t', '# x \t '])
+			return self.rng.choice(['# comment', '# コメント あ', '#', '# a\tb', '# trailing blanks  ', '#\t', '# x \t ', '# page\x0cbreak', '# \x1d\u2029'])
 		if r < 0.96:
 			return e()
 		return self.rng.choice(["'''doc\n\tstring'''", '"""one"""'])
@@ -291,6 +291,10 @@ class Gen:
 		if self.rng.random() < 0.2:
 			lines.append(self.rng.choice(['', '# head', '', '"""module doc"""']))
 		lines.extend(self.imports())
+		if self.rng.random() < 0.3:
+			# characters that str.splitlines() treats as line boundaries but the parser does not (only '\n' ends a line):
+			# a form-feed page break line (ignored white space), or such a character inside a comment / string literal
+			lines.append(self.rng.choice(['\x0c', '# \x0c', "'\x0b'", '"\u2028"', '# \x85\x1e']))
 		for _ in range(n_statements):
 			if self.rng.random() < 0.3:
 				lines.extend([''] * self.rng.randint(1, 2))
